@@ -21,7 +21,8 @@ EXPLAIN = ("LevenbergMarquardt.step (and GaussNewton.step) run under symx on an 
 
 def strategy_objects(quick):
     S = pp.optim.strategy
-    out = [('Constant', lambda: S.Constant(damping=0.1)), ('Adaptive', lambda: S.Adaptive(damping=0.1, high=0.5, low=1e-3, up=2.0, down=0.5, min=1e-3, max=10.0)),
+    out = [('Constant', lambda: S.Constant(damping=0.1)), ('Adaptive', lambda: S.Adaptive(damping=0.15, high=0.5, low=1e-3, up=2.0, down=0.5, min=0.1, max=0.25)),       # both of the strategy's OWN bounds bind after one update
+          
            ('TrustRegion', lambda: S.TrustRegion(radius=4.0, high=0.5, low=1e-3, up=2.0, down=0.5, factor=0.5, min=1e-3, max=100.0))]
     if not quick:
         out += [('Adaptive-b', lambda: S.Adaptive(damping=1e-3, high=0.7, low=0.1, up=3.0, down=0.25, min=1e-3, max=0.01)),
